@@ -334,6 +334,19 @@ def tampers(ctx, rng, raw, signed_raw, wallet, truth, change_pos):
             new.append((k, v))
         mm["ins"][k_in] = new
         yield "input-prev-tx-altered", "must-raise", rp.encode(mm)
+        # the previous transaction replaced by a bare (witness-style) UTXO: for a legacy P2SH input nothing then
+        # ties the stated amount - or a foreign redeem script - to the transaction
+        prev_raw = [v for k, v in imap if k == b"\x00"][0]
+        prev, _ = tc.decode(prev_raw)
+        po = prev["outs"][model["ins"][k_in]["vout"]]
+        lied = {"amount": po["amount"] + rng.choice([1000, 10**6]), "script": po["script"]}
+        mm = with_tx(maps, model)
+        mm["ins"][k_in] = [((b"\x01", tc.txout_bytes(lied)) if k == b"\x00" else (k, v)) for k, v in imap]
+        yield "input-legacy-p2sh-amount-via-witness-utxo", "must-raise", rp.encode(mm)
+        mm = with_tx(maps, model)
+        foreign_redeem = truth.script([ec.sec(ec.mul(rng.randrange(1, ec.N))) for _ in range(truth.n)])
+        mm["ins"][k_in] = [((b"\x01", tc.txout_bytes(po)) if k == b"\x00" else ((k, foreign_redeem) if k == b"\x04" else (k, v))) for k, v in imap]
+        yield "input-foreign-redeem-script-with-witness-utxo", "must-raise", rp.encode(mm)
     else:
         yield "input-prev-tx-altered", "skip", None
         for src, name, exp in ((raw, "input-witness-utxo-amount-no-sig(not demanded)", "not-demanded"), (signed_raw, "input-witness-utxo-amount-with-sig", "must-raise")):
